@@ -125,6 +125,10 @@ type c07World struct {
 	// response packets already seen in incoming mailboxes
 	seenResp map[*htlcPacket]bool
 
+	// outgoing keys of HTLCs that were resolved durably (their remote
+	// responses may still be replayed by the outgoing link)
+	resolvedOut []CircuitKey
+
 	labels map[string]bool
 	ops    []string
 }
@@ -578,9 +582,9 @@ func (w *c07World) actForward(t *rapid.T) error {
 				uint64((c+1)%c07NumChans) + 1}
 			target := rapid.SampledFrom(others).Draw(t, "target")
 			switch rapid.IntRange(0, 13).Draw(t, "targetKind") {
-			case 12:
+			case 5:
 				target = uint64(c)
-			case 13:
+			case 8:
 				target = c07UnknownChan
 			}
 			h = &c07Htlc{
@@ -631,9 +635,34 @@ func (w *c07World) actReplayAll(t *rapid.T) error {
 	return w.settle(exp)
 }
 
+// drawLink draws a link, preferring one for which useful(c) holds.
+func (w *c07World) drawLink(t *rapid.T, name string,
+	useful func(c int) bool) int {
+
+	var good []int
+	for c := 1; c <= c07NumChans; c++ {
+		if useful(c) {
+			good = append(good, c)
+		}
+	}
+	if len(good) > 0 && rapid.IntRange(0, 9).Draw(t, name+"Useful") != 4 {
+		return rapid.SampledFrom(good).Draw(t, name)
+	}
+
+	return rapid.IntRange(1, c07NumChans).Draw(t, name)
+}
+
 // actOutProcess: the outgoing link works on the adds in its mailbox.
 func (w *c07World) actOutProcess(t *rapid.T) error {
-	c := rapid.IntRange(1, c07NumChans).Draw(t, "outLink")
+	c := w.drawLink(t, "outLink", func(c int) bool {
+		for _, p := range w.boxAdds(c) {
+			if !w.ls[c].accepted[p.inKey()] {
+				return true
+			}
+		}
+
+		return false
+	})
 	exp := &c07Expect{}
 	var desc []string
 	for _, pkt := range w.boxAdds(c) {
@@ -755,7 +784,19 @@ func (w *c07World) actOutRestart(t *rapid.T) error {
 // HTLCs; a restarted link replays such responses from its forwarding
 // packages, so duplicates may come at any time.
 func (w *c07World) actRespond(t *rapid.T) error {
-	c := rapid.IntRange(1, c07NumChans).Draw(t, "respLink")
+	c := w.drawLink(t, "respLink", func(c int) bool {
+		for _, in := range w.order {
+			x := w.htlcs[in]
+			if x.exists && x.out != nil &&
+				x.out.ChanID.ToUint64() == uint64(c) &&
+				x.out.HtlcID < w.ls[c].watermark {
+
+				return true
+			}
+		}
+
+		return false
+	})
 	if w.ls[c].watermark == 0 {
 		return nil
 	}
@@ -777,8 +818,18 @@ func (w *c07World) actRespond(t *rapid.T) error {
 				live = append(live, x.out.HtlcID)
 			}
 		}
-		if len(live) > 0 && rapid.IntRange(0, 9).Draw(t, "live") < 7 {
+		var gone []uint64
+		for _, k := range w.resolvedOut {
+			if k.ChanID.ToUint64() == uint64(c) {
+				gone = append(gone, k.HtlcID)
+			}
+		}
+		r := rapid.IntRange(0, 9).Draw(t, "live")
+		switch {
+		case len(live) > 0 && r < 6:
 			id = rapid.SampledFrom(live).Draw(t, "liveID")
+		case len(gone) > 0 && r < 9:
+			id = rapid.SampledFrom(gone).Draw(t, "goneID")
 		}
 		settle := rapid.Bool().Draw(t, "settle")
 		out := c07Key(uint64(c), id)
@@ -807,6 +858,11 @@ func (w *c07World) actRespond(t *rapid.T) error {
 		v := "unknown"
 		switch {
 		case h == nil:
+			for _, k := range w.resolvedOut {
+				if k == out {
+					v = "after_resolved"
+				}
+			}
 		case h.closed:
 			v = "dup_closing"
 		default:
@@ -830,7 +886,9 @@ func (w *c07World) actRespond(t *rapid.T) error {
 // actInCommit: the incoming link commits responses found in its mailbox:
 // DeleteCircuits, then ack (the order of the real link).
 func (w *c07World) actInCommit(t *rapid.T) error {
-	c := rapid.IntRange(1, c07NumChans).Draw(t, "inCommitLink")
+	c := w.drawLink(t, "inCommitLink", func(c int) bool {
+		return len(w.boxResps(c)) > 0
+	})
 	var keys []CircuitKey
 	for _, pkt := range w.boxResps(c) {
 		if rapid.IntRange(0, 3).Draw(t, "consume") == 0 {
@@ -849,6 +907,9 @@ func (w *c07World) actInCommit(t *rapid.T) error {
 			return fmt.Errorf("response %s vanished", c07KeyStr(in))
 		}
 		h := w.htlcs[in]
+		if h.out != nil {
+			w.resolvedOut = append(w.resolvedOut, *h.out)
+		}
 		h.exists, h.out, h.closed = false, nil, false
 		h.respBox = false
 		h.resolved = true
@@ -968,7 +1029,8 @@ func TestVerifC07Switch(t *testing.T) {
 		nontrivial := w.labels["dup:drop_keystone"] ||
 			w.labels["dup:drop_inmem"] ||
 			w.labels["dup:fail_after_restart"] ||
-			w.labels["resp:dup_closing"]
+			w.labels["resp:dup_closing"] ||
+			w.labels["resp:after_resolved"]
 
 		labels := make([]string, 0, len(w.labels))
 		for l := range w.labels {
